@@ -570,7 +570,7 @@ var clauseKeywords = map[string]bool{
 	"pure": true, "trusted": true, "assumed": true, "inline": true, "use": true, "unfold": true, "wrap": true,
 	"func": true, "spec": true, "axiom": true, "lemma": true, "assume": true, "lit": true, "panics": true,
 	"induction": true, "fresh": true, "havoc": true, "ghost": true, "pred": true, "noframe": true,
-	"reads": true, "defines": true, "assert": true, "cases": true, "ghostvar": true, "ghostfield": true, "nooverflow": true, "unrollall": true, "pathcap": true, "opaque": true, "mayalias": true,
+	"reads": true, "defines": true, "assert": true, "cases": true, "ghostvar": true, "ghostfield": true, "nooverflow": true, "unrollall": true, "pathcap": true, "opaque": true, "mayalias": true, "deadreturn": true,
 }
 
 // parseContractText parses the `//@`-prefixed lines (prefix="//@") of a Go file
@@ -796,8 +796,8 @@ func parseContractText(path, text, prefix string) (*ContractFile, error) {
 				return fail(err)
 			}
 			cl.Expr = e
-		case "unroll":
-			// text = count
+		case "unroll", "deadreturn":
+			// text = count / "return text" [occurrence]
 		case "assigns", "use", "unfold", "fresh", "havoc", "reads", "panics", "ghost", "cases":
 			if cl.Text != "nothing" && cl.Text != "never" && cl.Text != "" {
 				for _, part := range splitTop(cl.Text, ',') {
